@@ -15,6 +15,7 @@ CONSTANTS
   NoWrapToo = FALSE
   MaxTMin = 0
   RatioNeedsExpand = TRUE
+  ZeroRatioToo = FALSE
   EmitMod = 1
 SPECIFICATION Spec
 INVARIANT DesignOK
